@@ -62,9 +62,9 @@ func (f *File) Clone() *File {
 // N builds a node.
 func N(kw string, params ...string) *Node { return &Node{Kw: kw, Params: params} }
 
-func (n *Node) WithAnn(a string) *Node   { n.Ann = a; return n }
-func (n *Node) WithID(id string) *Node   { n.ID = id; return n }
-func (n *Node) Add(k ...*Node) *Node     { n.Kids = append(n.Kids, k...); return n }
+func (n *Node) WithAnn(a string) *Node { n.Ann = a; return n }
+func (n *Node) WithID(id string) *Node { n.ID = id; return n }
+func (n *Node) Add(k ...*Node) *Node   { n.Kids = append(n.Kids, k...); return n }
 func (n *Node) WithBody(kind int, alts ...[]string) *Node {
 	n.Body = kind
 	n.BodyAlts = alts
